@@ -20,7 +20,7 @@ Record crun := CR {
 }.
 Record ccase := CC {
   c_prefix : bytes;         (* st.prefix ("" or "p.") *)
-  c_nidx : N;               (* 1: index ia; 2: indexes ia, ib *)
+  c_nidx : N;               (* 0: QueryStore without index; 1: index ia; 2: indexes ia, ib *)
   c_runs : list crun;
   c_rb_ok : bool;           (* RebuildIndexes returned nil *)
   c_rb_obs : obs;           (* database after RebuildIndexes *)
@@ -48,7 +48,7 @@ Definition query_ids_pref (n kp : bytes) (c : content) : list id :=
                       | KIdx n' ik i => if beq n n' && has_prefix kp ik then [i] else []
                       | _ => [] end) c.
 Definition case_cfg (c : ccase) : cfg :=
-  Cfg (c_prefix c) (if c_nidx c =? 1 then [(name_a, kf_a)] else [(name_a, kf_a); (name_b, kf_b)]).
+  Cfg (c_prefix c) (if c_nidx c =? 0 then [] else if c_nidx c =? 1 then [(name_a, kf_a)] else [(name_a, kf_a); (name_b, kf_b)]).
 
 (* ---------- generic helpers ---------- *)
 Definition ovalue_eq (a b : option value) : bool :=
@@ -172,9 +172,9 @@ Definition oval (g : cfg) (o : obs) (i : id) : option value :=
 Definition omark (g : cfg) (o : obs) : bool := omem (enc_key g KMark) o.
 Definition ostate (g : cfg) (o : obs) : sstate := SS (oval g o) (omark g o).
 Definition op_ids (o : op) : list id :=
-  match o with Create i _ => [i] | Update i _ => [i] | Delete i => [i] | Init s => map fst s end.
+  match o with Create i _ => [i] | Update i _ => [i] | Delete i => [i] | Init s => map fst s | InitErr _ => [] end.
 Definition touches (i : id) (o : op) : bool :=
-  match o with Create j _ => beq i j | Update j _ => beq i j | Delete j => beq i j | Init _ => false end.
+  match o with Create j _ => beq i j | Update j _ => beq i j | Delete j => beq i j | Init _ => false | InitErr _ => false end.
 Definition seeds_of (ops : list op) : list (id * value) :=
   flat_map (fun o => match o with Init s => s | _ => [] end) ops.
 Definition st_eq_on (u : list id) (a b : sstate) : bool :=
